@@ -665,6 +665,28 @@ TARGETS = [
          enums=[dict(rust="StoreKind", file="src/reader/directory_pack/entry_store.rs", lean="SrcStoreKind", types={}, declare=False)],
          cfg=dict(params=[("bs", "Bytes"), ("layoutParse", "Bytes → Outcome (L × Bytes)")], ret="L", outcome=True, implicit="{L : Type}",
                   read_calls={"StoreKind::parse": "storeKindParse bs", "Layout::parse": "layoutParse bs"})),
+    # ---- the cluster header (compression byte, offset size, blob count) in front of the cluster tail
+    dict(name="compressionTypeParse", group="Open", file="src/common/compression_type.rs", fn="parse", after=r"impl Parsable for CompressionType",
+         enums=[dict(rust="CompressionType", file="src/common/compression_type.rs", lean="SrcCompression", types={}, ctor_prefixes=["CompressionType"])],
+         cfg=dict(params=[("bs", "Bytes")], ret="SrcCompression", outcome=True, reads={"read_u8": "takeLE bs 1"})),
+    dict(name="clusterHeaderParse", group="Open", file="src/common/headers/cluster.rs", fn="parse", after=r"impl Parsable for ClusterHeader",
+         cfg=dict(params=[("bs", "Bytes")], ret="(SrcCompression × Nat × Nat)", outcome=True,
+                  read_calls={"CompressionType::parse": "compressionTypeParse bs", "Count<u16>::parse": "takeLE bs 2",
+                              "ByteSize::parse": "((takeLE bs 1).bind fun (v, bs) => (byteSizeTryFrom v).bind fun s => Outcome.ok (s, bs))"},
+                  struct_as={"ClusterHeader": ["compression", "offset_size", "blob_count"]})),
+    # ---- the fixed-width wrappers the tables of the other targets stand `takeLE bs w` for
+    dict(name="countU8Parse", group="Open", file="src/bases/types/count.rs", fn="parse", after=r"impl Parsable for Count<u8>",
+         cfg=dict(params=[("bs", "Bytes")], ret="Nat", outcome=True, reads={"read_u8": "takeLE bs 1"})),
+    dict(name="countU16Parse", group="Open", file="src/bases/types/count.rs", fn="parse", after=r"impl Parsable for Count<u16>",
+         cfg=dict(params=[("bs", "Bytes")], ret="Nat", outcome=True, reads={"read_u16": "takeLE bs 2"})),
+    dict(name="countU32Parse", group="Open", file="src/bases/types/count.rs", fn="parse", after=r"impl Parsable for Count<u32>",
+         cfg=dict(params=[("bs", "Bytes")], ret="Nat", outcome=True, reads={"read_u32": "takeLE bs 4"})),
+    dict(name="countU64Parse", group="Open", file="src/bases/types/count.rs", fn="parse", after=r"impl Parsable for Count<u64>",
+         cfg=dict(params=[("bs", "Bytes")], ret="Nat", outcome=True, reads={"read_u64": "takeLE bs 8"})),
+    dict(name="sizeParse", group="Open", file="src/bases/types/size.rs", fn="parse", after=r"impl Parsable for Size",
+         cfg=dict(params=[("bs", "Bytes")], ret="Nat", outcome=True, reads={"read_u64": "takeLE bs 8"})),
+    dict(name="offsetParse", group="Open", file="src/bases/types/offset.rs", fn="parse", after=r"impl Parsable for Offset",
+         cfg=dict(params=[("bs", "Bytes")], ret="Nat", outcome=True, reads={"read_u64": "takeLE bs 8"})),
     # ---- the head of Layout::parse (the statements before the properties are split into common part and variants)
     dict(name="layoutParseHead", group="Parse", file="src/reader/directory_pack/layout/mod.rs", fn="parse", after=r"impl Parsable for Layout",
          prefix_until=(r"let mut common_properties", ["entry_count", "is_entry_checked", "entry_size", "variant_count", "raw_layout"]),
